@@ -6,7 +6,9 @@ import (
 	"encoding/hex"
 	"encoding/json"
 	"fmt"
+	"log/slog"
 	"net/http/httptest"
+	"os"
 	"strings"
 	"time"
 	"unicode/utf8"
@@ -33,11 +35,18 @@ type wsSession struct {
 	nb     int
 }
 
-func startWS() *wsSession {
+func startWS(pingMs int) *wsSession {
 	rec := &recHandler{got: make(chan []mocrelay.ClientMsg, 1), emit: make(chan mocrelay.ServerMsg)}
 	opt := mocrelay.NewDefaultRelayOption()
 	opt.RecvRateLimitRate = 1e9
 	opt.RecvRateLimitBurst = 1 << 30
+	if pingMs > 0 {
+		opt.PingDuration = time.Duration(pingMs) * time.Millisecond
+		opt.SendTimeout = 2 * time.Second // a ping that gets no pong gives up after 2 s (default 10 s)
+	}
+	if os.Getenv("VERIF_DEBUG") != "" {
+		opt.Logger = slog.New(slog.NewTextHandler(os.Stderr, &slog.HandlerOptions{Level: slog.LevelInfo}))
+	}
 	relay := mocrelay.NewRelay(rec, opt)
 	srv := httptest.NewServer(relay)
 	ctx, cancel := context.WithTimeout(context.Background(), 120*time.Second)
@@ -125,12 +134,36 @@ func (s *wsSession) frameStep(f wsFrame) (fwd []mocrelay.ClientMsg, replies []mo
 		return
 	}
 	replies, _, err = s.readUntilBarrier(id)
+	if err != nil && os.Getenv("VERIF_DEBUG") != "" {
+		fmt.Fprintf(os.Stderr, "ws read until barrier: %v\n", err)
+	}
+	wait := 10 * time.Second
+	if err != nil {
+		wait = 300 * time.Millisecond // the connection is gone: nothing more will be forwarded
+	}
 	select {
 	case fwd = <-s.rec.got:
-	case <-time.After(10 * time.Second):
+	case <-time.After(wait):
 		err = errStall
 	}
 	return
+}
+
+// the connection idles for a while (the client keeps reading, so it answers the relay's pings), then the handler
+// emits the barrier: several ping rounds pass on a healthy connection
+func (s *wsSession) idleStep(d time.Duration) error {
+	s.nb++
+	id := fmt.Sprintf("%s%d", barrierPrefix, s.nb)
+	go func() {
+		time.Sleep(d)
+		select {
+		case s.rec.emit <- mocrelay.NewServerNoticeMsg(id):
+		case <-s.ctx.Done():
+		case <-time.After(5 * time.Second):
+		}
+	}()
+	_, _, err := s.readUntilBarrier(id)
+	return err
 }
 
 func (s *wsSession) outboundStep(msgs []mocrelay.ServerMsg) (got []mocrelay.ServerMsg, allText bool, err error) {
@@ -238,18 +271,27 @@ func genWSFrames(r *Rng, n int) []wsFrame {
 	return frames
 }
 
-func execWS(frames []wsFrame, outbound []mocrelay.ServerMsg) {
-	s := startWS()
+func execWS(frames []wsFrame, outbound []mocrelay.ServerMsg, pingMs int) {
+	s := startWS(pingMs)
 	defer s.stop()
 	var fj []any
+	if pingMs > 0 {
+		// a few ping rounds before the first frame: a healthy connection must stay usable afterwards
+		if err := s.idleStep(time.Duration(4*pingMs) * time.Millisecond); err != nil && os.Getenv("VERIF_DEBUG") != "" {
+			fmt.Fprintf(os.Stderr, "ws session (ping %d ms) broke while idle: %v\n", pingMs, err)
+		}
+	}
 	for _, f := range frames {
 		fwd, replies, err := s.frameStep(f)
 		fj = append(fj, frameJ(f, fwd, replies, err != nil))
 		if err != nil {
+			if os.Getenv("VERIF_DEBUG") != "" {
+				fmt.Fprintf(os.Stderr, "ws session (ping %d ms) broke at frame %d: %v\n", pingMs, len(fj), err)
+			}
 			break
 		}
 	}
-	line := M{"op": "ws", "frames": fj}
+	line := M{"op": "ws", "frames": fj, "ping_ms": pingMs}
 	if len(outbound) > 0 {
 		got, allText, _ := s.outboundStep(outbound)
 		line["outbound"] = M{"sent": smsgsJ(outbound), "got": smsgsJ(got), "allText": allText}
@@ -272,7 +314,11 @@ func init() {
 					}
 					outbound = append(outbound, m)
 				}
-				execWS(genWSFrames(r, r.Range(2, 10)), outbound)
+				pingMs := 0
+				if r.P(15) {
+					pingMs = 15 // the relay pings every 15 ms in this session
+				}
+				execWS(genWSFrames(r, r.Range(2, 10)), outbound, pingMs)
 			}
 		},
 		replay: func(lines []replayLine) {
@@ -295,7 +341,7 @@ func init() {
 						outbound = append(outbound, smsgFromJ(x))
 					}
 				}
-				execWS(frames, outbound)
+				execWS(frames, outbound, int(jnum(l["ping_ms"])))
 			}
 		},
 	}
